@@ -368,20 +368,23 @@ package server
 //@   at-return requires len(ret0) + len(ret1) == len(all)
 // from C12: LLGR-stale routes are "only advertised to LLGR-capable peers": towards a peer without LLGR for the
 // family such a route becomes a withdrawal (a clone marked withdrawn), never the route itself
+// (pinned to its body: what the session's source description - built from the global configuration when the session
+// came up - says about the peer's AS)
 //@ func (*peer).isConfederationMember
 //@   pure
-//@   spec-only
+//@   claims at-return
+//@   at-return requires ret0 == (info != nil && info.Confederation)
 // the same on ingress, before selection: what a confederation member sent in LOCAL_PREF is what its route is ranked by
 //@ func (*BgpServer).propagateUpdate$1
 //@   tag C03
 //@   claims at-call
-//@   at-call path.RemoveLocalPref() requires !peer.peerInfo.Load().Confederation
+//@   at-call path.RemoveLocalPref() requires !peer.isConfederationMember()
 //@ func (*BgpServer).postFilterpath
 //@   requires peer != nil
 //@   claims at-call at-return
 // from C03 "highest LOCAL_PREF": LOCAL_PREF is only taken off for a peer outside the local AS and outside the
 // confederation - members of the confederation exchange it like iBGP peers do (RFC 5065 4, 5)
-//@   at-call path.RemoveLocalPref() requires !peer.peerInfo.Load().Confederation
+//@   at-call path.RemoveLocalPref() requires !peer.isConfederationMember()
 //@   at-call ^path.Clone( requires arg1
 //@   at-return requires path0 != nil && !old(path0.IsWithdraw) && old(!peer.isLLGREnabledFamily(path0.GetFamily()) && path0.IsLLGRStale()) ==> ret0 != path0 && called(Clone)
 
